@@ -3,6 +3,8 @@
 
 pub mod alloc_guard;
 pub mod engine;
+pub mod fuzz_entry;
+pub mod fuzzrun;
 pub mod gens;
 pub mod lab_mem;
 pub mod lab_sock;
